@@ -23,7 +23,7 @@ for p in props:
 m={"version":1,
  "setup_cmd":"cd /verif/engine && GOFLAGS=-mod=mod GOPROXY=off GOSUMDB=off GOTOOLCHAIN=local go build -o /verif/bin/vx ./cmd/vx",
  "hooks":{"guard":"verif","enable":"harnesses are injected in-package by go/packages overlay (engine) and `go test -overlay` (native replay); /repo is not modified by hooks","baseline_off_cmd":"cd /repo && go test -vet=off -count=1 -timeout 25m ./...","source_commits":[],"add_only":True},
- "engines":[{"name":"gosx","path":"/verif/engine","serves_properties":[c["property_id"] for c in checks if c["engine"]=="gosx"],"kind_free_text":"forking symbolic executor over go/ssa of /repo's working tree (bit-vector terms, concrete shapes), SMT queries to z3 4.8.12 in-process (cvc5 / z3 5.1 selectable), native replay of counterexamples via go test -overlay"}],
+ "engines":[{"name":"gobmc","path":"/verif/engine2","serves_properties":[c["property_id"] for c in checks if c["engine"]=="gobmc"],"kind_free_text":"transition-system extraction from goroutine SSA (vx extract, /verif/engine/exec/proc.go) + SMT back end in z3py: one-step induction, BMC, quiescence/progress and race-candidate queries"},{"name":"gosx","path":"/verif/engine","serves_properties":[c["property_id"] for c in checks if c["engine"]=="gosx"],"kind_free_text":"forking symbolic executor over go/ssa of /repo's working tree (bit-vector terms, concrete shapes), SMT queries to z3 4.8.12 in-process (cvc5 / z3 5.1 selectable), native replay of counterexamples via go test -overlay"}],
  "checks":checks,
  "notes":"See DESIGN.md. Every check re-loads /repo's current source into SSA on each run; bounds and stubs are listed in each evidence file.",
  "not_applicable":na}
